@@ -837,3 +837,7 @@ func vfContainsStr(l []string, s string) bool {
 	}
 	return false
 }
+
+// TestVerifC04Printer: see vfPrinterUnit (C11 harness): feedback written by the reference server's real printer for
+// awkward test names and messages makes the run fail and names the case.
+func TestVerifC04Printer(t *testing.T) { vfPrinterUnit(t, "C04Printer", true) }
